@@ -234,6 +234,13 @@ func stackScenarios(which string) []scenario {
 			{{0, "call:add", 1}, {1, "", 0}, {2, "call:compact", 1}, {0, "read_file:L", 2}, {2, "", 0}, {0, "", 0}},
 			{{0, "call:add", 1}, {1, "", 0}, {2, "call:compact", 1}, {0, "read_file:L", 3}, {2, "rename:LL", 1}, {0, "", 0}, {2, "", 0}},
 		}})
+	// Clean walks a directory listing while a compactor is still unlinking the tables it replaced
+	out = append(out, scenario{name: "clean-vs-compact-unlink", setup: base3,
+		scripts: [][]sop{opens(op("compactall")), opens(op("clean"), op("read"))},
+		directed: [][]directive{
+			{{0, "remove:T", 1}, {1, "open:T", 3}, {0, "", 0}, {1, "", 0}},
+			{{0, "remove:T", 2}, {1, "open:T", 2}, {0, "", 0}, {1, "", 0}},
+		}})
 	// a multi-table Addition whose second table claims an update index the first already used: must be refused
 	out = append(out, scenario{name: "addmulti-same|add", setup: base3,
 		scripts: [][]sop{opens(sop{kind: "addmulti", tx: 15, same: true}, op("read")), opens(add(21), op("read"))}})
